@@ -28,8 +28,9 @@ RULE = ("(a) all target patterns of depth 1 (arity 1..3, leaf kinds name/attribu
         "(drawn). Non-trivial: the pattern has a star or nesting, or the operand type has an "
         "in-place method / is a user class; distinct by case source.")
 
-PRE = "o = OBJ('o')\nb = BOX('b', {})\nl = BOX('l', [0, 1, 2, 3, 4, 5])\n"
-LEAVES = ("name", "attr", "sub", "slice")
+PRE = "o = OBJ('o')\nb = BOX('b', {})\nl = BOX('l', [0, 1, 2, 3, 4, 5])\nt = KEYS('t')\n"
+LEAVES = ("name", "attr", "sub", "slice", "tupidx")
+TUPIDX = ("t[0, 1:3]", "t[..., 1:]", "t[1:2, 0]", "t[::2,]", "t[0, 1, 2:]", "t[:, :, 3]", "t[(1, 2)]", "t[1:2, ...]")
 SLICES = ("l[1:2]", "l[:1]", "l[4:]", "l[2:2]")
 
 
@@ -47,6 +48,8 @@ class Ctx(object):
             return "o.a%d" % self.n
         if kind == "sub":
             return "b['k%d']" % self.n
+        if kind == "tupidx":
+            return TUPIDX[self.n % len(TUPIDX)]
         return SLICES[self.n % len(SLICES)]
 
 
@@ -166,15 +169,29 @@ CHAINED = [
     ("k = 1", "l[k:], k = keep = [9], 2", ["k", "keep"]),
     ("x = None", "x = y = z = None\nL('same', x is y)", ["x", "y", "z"]),
     ("x = 10", "x = y = x + 1", ["x", "y"]),
-    ("t = (1, 2)", "t = u, w = t", ["t", "u", "w"]),
+    ("tt = (1, 2)", "tt = u, w = tt", ["tt", "u", "w"]),
+    # literal values: every target of a chained assignment is the SAME object
+    ("pass", "a = b2 = []\na.append(1)\nL('same', a is b2)", ["a", "b2"]),
+    ("pass", "a = b2 = c2 = [0, 0]\nb2[0] = 5\nL('same', a is b2, b2 is c2)", ["a", "b2", "c2"]),
+    ("pass", "a = o.a1 = b['k'] = {}\na['q'] = 1\nL('same', a is o.a1, a is b['k'])", ["a"]),
+    ("pass", "(a, b2) = c2 = [1, 2]\n[d2, *e2] = f2 = g2 = (3, 4, 5)\nL('same', f2 is g2)", ["a", "b2", "c2", "d2", "e2", "f2", "g2"]),
+    ("pass", "a = b2 = (1, [2])\na[1].append(3)\nL('same', a is b2)", ["a", "b2"]),
+    ("pass", "a = b2 = 'abc'\nc2 = d2 = 10 ** 30\nL('same', a is b2, c2 is d2)", ["a", "b2", "c2", "d2"]),
+    # the value is computed before the container/index of the target are looked at
+    ("st = [1, 2, 3]", "st[len(st) - 2] = st.pop()", ["st"]),
+    ("st = [1, 2, 3]\nd2 = {2: 'x'}", "d2[len(st)] = st.pop()\nd2[st.pop()] = len(st)", ["st", "d2"]),
+    ("st = [5, 6, 7]", "st[st.pop() - 7] += st.pop()", ["st"]),
+    ("st = [[1], [2]]", "st[-1] = st.pop(0)", ["st"]),
+    ("st = [1, 2, 3]", "st[0], st[len(st) - 1] = st.pop(), st.pop()", ["st"]),
+    ("pass", "t[0, 1:3] += 2\nt[..., 1:] = 5\nt[1:2, 0] *= 3\nt[::2,] = 7", []),
 ]
 
 
 def chained_cases():
     for init, stmt, names in CHAINED:
         for where in ("module", "function", "class"):
-            show = "L('after', %s)" % ", ".join(names + ["o", "b", "l"])
-            body = [init] + stmt.split("\n") + [show]
+            show = "L('after', %s)" % ", ".join(names + ["o", "b", "l", "t"])
+            body = init.split("\n") + stmt.split("\n") + [show]
             if where == "module":
                 src = PRE + "\n".join(body) + "\n"
             elif where == "function":
@@ -185,7 +202,7 @@ def chained_cases():
 
 
 def case_program(stmt, names, where):
-    show = "L('after', %s)" % ", ".join(names + ["o", "b", "l"])
+    show = "L('after', %s)" % ", ".join(names + ["o", "b", "l", "t"])
     if where == "module":
         return PRE + stmt + "\n" + show + "\n"
     if where == "function":
